@@ -79,7 +79,18 @@ def run_check(pid, tier="quick", timeout=900):
     if rc != 0:
         return rc, sig, dt
     rc2, sig2, dt2 = run_one(f"{HARN}/target/dbg/nvh", pid, tier, timeout, env="VERIF_PROFILE=dbg VERIF_SCALE=0.5 VERIF_SKIP_STREAMS=long-texts")
-    return rc2, (("replica-build: " + sig2) if rc2 == 1 else sig2), dt + dt2
+    if rc2 != 0:
+        return rc2, (("replica-build: " + sig2) if rc2 == 1 else sig2), dt + dt2
+    # environment replica (only if the crate reads environment variables)
+    import re, glob
+    names = set()
+    for f in glob.glob(f"{REPO}/src/**/*.rs", recursive=True):
+        names |= set(re.findall(r'var(?:_os)?\(\s*"([A-Za-z_][A-Za-z0-9_]*)"', open(f, encoding="utf-8").read()))
+    if not names:
+        return rc2, sig2, dt + dt2
+    envs = " ".join(f"{n}=1" for n in sorted(names))
+    rc3, sig3, dt3 = run_one(f"{HARN}/target/release/nvh", pid, tier, timeout, env=f"{envs} VERIF_PROFILE=env VERIF_SCALE=0.5 VERIF_SKIP_STREAMS=long-texts")
+    return rc3, (("environment-replica: " + sig3) if rc3 == 1 else sig3), dt + dt2 + dt3
 
 def revert():
     sh("git checkout -- . && git clean -fdq -e target", cwd=REPO)
